@@ -4,6 +4,7 @@
 package hs
 
 import (
+	"sync/atomic"
 	"context"
 	"crypto"
 	"crypto/ed25519"
@@ -118,8 +119,27 @@ type ServerConfig struct {
 	GenBefore    func(*types.GenerateServerCertificatesRequest)
 	GenAfter     func(*types.GenerateServerCertificatesRequest)
 	NoAcceptLoop bool // the caller (e.g. a SplitListener) accepts from the intercepting listener itself
+	// CustomCloseErr: once closed, the base listener's Accept fails with an error of its own instead of net.ErrClosed
+	CustomCloseErr bool
 	Unix         string
 }
+
+// sessionListener reports its closure with an error of its own (as a multiplexed session used as a listener does)
+type sessionListener struct {
+	net.Listener
+	closed atomic.Bool
+}
+
+var errSessionShutdown = errors.New("session shutdown")
+
+func (l *sessionListener) Accept() (net.Conn, error) {
+	c, err := l.Listener.Accept()
+	if err != nil && l.closed.Load() {
+		return nil, errSessionShutdown
+	}
+	return c, err
+}
+func (l *sessionListener) Close() error { l.closed.Store(true); return l.Listener.Close() }
 
 func selfSigned(pub ed25519.PublicKey, priv ed25519.PrivateKey, ski []byte) ([]byte, *x509.Certificate) {
 	tpl := &x509.Certificate{
@@ -171,6 +191,9 @@ func NewServer(cfg ServerConfig) (*Server, error) {
 		return nil, err
 	}
 	s.Base = &teeListener{Listener: s.Base}
+	if cfg.CustomCloseErr {
+		s.Base = &sessionListener{Listener: s.Base}
+	}
 	if !cfg.NoBaseTLS {
 		pub, priv, _ := ed25519.GenerateKey(rand.Reader)
 		der, c := selfSigned(pub, priv, nil)
@@ -435,6 +458,7 @@ type Client struct {
 	Pref   string   // cur | next | garbage | none
 	Cn     bool     // peer-set common_name
 	Extras []string // extra ALPN names
+	XPos   string   // where the extra names go: "" / mid (chunks, extras, preference) | afterPref | before | split
 	ReqMut string   // none | flip:<i> (bit flip of the marshalled request)
 	State  *structpb.Struct
 }
@@ -503,6 +527,26 @@ func (s *Server) BuildAuthProtos(c Client) ([]string, *types.GenerateServerCerti
 		}
 	case "garbage":
 		protos = append(protos, nodeenrollment.CertificatePreferenceV1Prefix+"no-such-root")
+	}
+	// other legitimate orders of the same entries (a client is free to order its ALPN list)
+	if len(c.Extras) > 0 && c.XPos != "" && c.XPos != "mid" {
+		var lib, pref []string
+		for _, p := range protos {
+			switch {
+			case strings.HasPrefix(p, nodeenrollment.CertificatePreferenceV1Prefix):
+				pref = append(pref, p)
+			case strings.HasPrefix(p, nodeenrollment.AuthenticateNodeNextProtoV1Prefix):
+				lib = append(lib, p)
+			}
+		}
+		switch c.XPos {
+		case "afterPref":
+			protos = append(append(append([]string{}, lib...), pref...), c.Extras...)
+		case "before":
+			protos = append(append(append([]string{}, c.Extras...), lib...), pref...)
+		case "split":
+			protos = append(append(append(append([]string{}, c.Extras[:1]...), lib...), pref...), c.Extras[1:]...)
+		}
 	}
 	return protos, req, nil
 }
